@@ -22,6 +22,7 @@ func checkC20(c *Ctx) {
 	c20ConcurrentUnpair(c)
 	c20ListingDuringRemoval(c)
 	c20ForeignStorage(c)
+	platformProbe(c, "C20", "xhmprobe") // the setup URI on the host, GOARCH=386 and js/wasm (the payload has 45 bits)
 	c18RelativePath(c)
 	c20HashPrecision(c)
 	c.SetRule("streams: pin (ValidatePin on structured + random strings; non-trivial = 8 bytes long or a trivial code), " +
@@ -120,6 +121,24 @@ func genPin(r *rand.Rand) (string, string) {
 	case 6:
 		return "trivial", c20TrivialList[r.Intn(12)]
 	case 7: // one position off a trivial code
+		if r.Intn(3) == 0 {
+			// codes that LOOK like the trivial ones and are none of the twelve: digits counting up or down from any start,
+			// with or without wrap-around, two alternating digits, a palindrome of a repeated pair
+			st, dir := r.Intn(10), []int{1, 9}[r.Intn(2)]
+			b := make([]byte, 8)
+			for k := range b {
+				switch r.Intn(1) {
+				default:
+					b[k] = byte('0' + (st+k*dir)%10)
+				}
+			}
+			if r.Intn(4) == 0 {
+				for k := range b {
+					b[k] = byte('0' + (st+(k%2)*dir)%10)
+				}
+			}
+			return "looks-trivial", string(b)
+		}
 		b := []byte(c20TrivialList[r.Intn(12)])
 		b[r.Intn(8)] = byte('0' + r.Intn(10))
 		return "near-trivial", string(b)
@@ -284,6 +303,16 @@ func c20PinXhm(c *Ctx) {
 	for i, s := range []string{"00102003", "00000001", "10000000", "99999998", "12345679", "0000000", "000000000", "", "１２３４５６７８",
 		"１２34", "001-02-003", "0010200-", "-0102003", "+0102003", " 0102003", "0010200a", "0010200/", "0010200:", "00102003\n", "\x0000102003"[:8]} {
 		pcs = append(pcs, pinCase{fmt.Sprintf("pin-corpus#%d", i), "corpus", s})
+	}
+	// every code whose digits count up or down by one (from any start, wrapping at 9/0): exactly two of them are trivial
+	for st := 0; st < 10; st++ {
+		for _, dir := range []int{1, 9} {
+			b := make([]byte, 8)
+			for k := range b {
+				b[k] = byte('0' + (st+k*dir)%10)
+			}
+			pcs = append(pcs, pinCase{fmt.Sprintf("pin-run#%d.%d", st, dir), "looks-trivial", string(b)})
+		}
 	}
 	nb := c.Pick(200, 10000)
 	for b := 0; b < nb; b++ {
